@@ -326,6 +326,20 @@ ADDENDA4 = {
     'C20': 'Quick tier: every combination of <= 3 workbook mutators (thorough: 4), every 1-3 row service sheet.',
 }
 
+# additions made with the wave-5 seeded changes (DESIGN.md 8.9)
+ADDENDA5 = {
+    'C03': 'The fibre description is also given at another reference frequency / wavelength, and with a dispersion slope of exactly 0.',
+    'C06': 'Node target of exactly 0 dBm included.',
+    'C10': 'Fibre loss exactly on the Raman limit included.',
+    'C11': 'The two-request batches are also declared as a disjoint pair (STRICT lists crossed in order or the computation refused).',
+    'C12': 'Includes a group and a strict subset of it in both orders.',
+    'C13': 'Penalty tables of the oracle are built from the equipment document by the documented rule, not read back from the loaded object; includes a signed table with non-zero penalty around 0.',
+    'C14': 'Includes fixed slots exactly one step inside and exactly on the guard-band limits.',
+    'C16': 'Includes the same impossible include list once LOOSE and once STRICT.',
+    'C18': 'Includes per-degree targets equal to 0 and YANG documents whose identityref leaves carry the module prefix.',
+    'C20': 'Converts the .xls workbooks shipped with the repository through the real xlrd path (reference model built from an independent xlrd read); Eqpt rows on FUSED sites; service rows on a workbook with own west values.',
+}
+
 
 def main():
     checks = []
@@ -337,6 +351,8 @@ def main():
             text = text + ' ' + ADDENDA[pid]
         if pid in ADDENDA4:
             text = text + ' ' + ADDENDA4[pid]
+        if pid in ADDENDA5:
+            text = text + ' ' + ADDENDA5[pid]
         checks.append({
             'property_id': pid,
             'quick_cmd': f'./check {pid} --tier quick',
